@@ -122,7 +122,8 @@ func (n *Nodis) applyPatch(p patch.Op) error {
 	case *patch.OpDel:
 		n.Del(op.Key)
 	case *patch.OpExpire:
-		n.Expire(op.Key, op.Expiration)
+		// the record carries the absolute deadline in milliseconds
+		n.ExpireAt(op.Key, time.UnixMilli(op.Expiration))
 	case *patch.OpExpireAt:
 		n.ExpireAt(op.Key, time.Unix(op.Expiration, 0))
 	case *patch.OpHClear:
@@ -167,6 +168,9 @@ func (n *Nodis) applyPatch(p patch.Op) error {
 		n.SRem(op.Key, op.Members...)
 	case *patch.OpSet:
 		n.Set(op.Key, op.Value, op.KeepTTL)
+		if op.Expiration != 0 {
+			n.ExpireAt(op.Key, time.UnixMilli(op.Expiration))
+		}
 	case *patch.OpZAdd:
 		n.ZAdd(op.Key, op.Member, op.Score)
 	case *patch.OpZClear:
@@ -174,13 +178,25 @@ func (n *Nodis) applyPatch(p patch.Op) error {
 	case *patch.OpZIncrBy:
 		n.ZIncrBy(op.Key, op.Member, op.Score)
 	case *patch.OpZRem:
-		n.ZRem(op.Key, op.Member)
+		members := op.Members
+		if op.Member != "" {
+			members = append(members, op.Member)
+		}
+		n.ZRem(op.Key, members...)
 	case *patch.OpZRemRangeByRank:
 		n.ZRemRangeByRank(op.Key, op.Start, op.Stop)
 	case *patch.OpZRemRangeByScore:
 		n.ZRemRangeByScore(op.Key, op.Min, op.Max, int(op.Mode))
 	case *patch.OpRename:
 		return n.Rename(op.Key, op.DstKey)
+	case *patch.OpRenameNX:
+		return n.RenameNX(op.Key, op.DstKey)
+	case *patch.OpPersist:
+		n.Persist(op.Key)
+	case *patch.OpZUnionStore:
+		n.ZUnionStore(op.Key, op.Keys, op.Weights, op.Aggregate)
+	case *patch.OpZInterStore:
+		n.ZInterStore(op.Key, op.Keys, op.Weights, op.Aggregate)
 	default:
 		return ErrUnknownOperation
 	}
